@@ -248,7 +248,10 @@ class Gen:
         todo = []
         for name, gt, pair in goals:
             if gt is T.TRUE:
-                self.results.append({"goal": name, "verdict": "unsat", "trivial": True, "time_s": 0.0})
+                # both sides are the same term DAG; "symbolic" marks the non-constant ones (two executions of real code on
+                # symbolic inputs that produced the identical normal form)
+                symbolic = pair is not None and pair[0].n.op != "const"
+                self.results.append({"goal": name, "verdict": "unsat", "trivial": True, "time_s": 0.0, "symbolic": symbolic})
             else:
                 todo.append((name, gt, pair))
         self.records.append((label, goals, list(run.pc)))
